@@ -1,4 +1,5 @@
 //! Text / small-pure-function drivers (B3 case replay, B2 traces) — DESIGN.md §7.5, §7.3 C43, §7.1 C47.
+mod c11;
 mod c52;
 
 fn main() {
@@ -6,6 +7,7 @@ fn main() {
     let cmd = a.get(1).map(|s| s.as_str()).unwrap_or("");
     match cmd {
         "c52" => c52::main(),
+        "c11" => c11::main(),
         _ => {
             eprintln!("usage: vtext <c52|c11|c43|c47> [options]");
             std::process::exit(2);
